@@ -893,10 +893,10 @@ func c11Scenarios(thorough bool) []c11scfg {
 		{T(P("F1a"), S("F1a")), T(P("F1b"), X("F1b"))},
 		{T(P("F1a")), T(S("F1a")), T(C)},
 		{T(P("F1a")), T(S("F1a")), T(S("F1a"))},
-		{T(P("F1a"), S("F1a")), T(P("F1b")), T(S("F1b"))},
-		{T(P("F2a"), S("F2a")), T(P("F1a")), T(S("F1a"))},
 	}
 	huge := [][][]c11op{
+		{T(P("F1a"), S("F1a")), T(P("F1b")), T(S("F1b"))},
+		{T(P("F2a"), S("F2a")), T(P("F1a")), T(S("F1a"))},
 		{T(P("F1a"), S("F1a")), T(P("F1b"), S("F1b")), T(C)},
 		{T(P("F1a"), S("F1a")), T(P("F1b"), S("F1b")), T(P("F2a"), S("F2a"))},
 		{T(P("F1a"), S("F1a"), P("F1b"), S("F1b")), T(S("F1a"), S("F1b"))},
@@ -922,12 +922,13 @@ func c11Scenarios(thorough bool) []c11scfg {
 		add("real", small, 1)
 		add("stub", small, 2)
 		add("stub", large, 1)
+		add("stub", huge[:2], 1)
 	}
 
 	return cfgs
 }
 
-func c11PartS(r *vlib.Run, item *int) {
+func c11PartS(r *vlib.Run) {
 	cfgs := c11Scenarios(r.Thorough())
 
 	var boundtxt []string
@@ -939,12 +940,9 @@ func c11PartS(r *vlib.Run, item *int) {
 
 	r.Set("s_scenarios_enumerated", len(cfgs))
 
-	for _, c := range cfgs {
-		*item++
-		if !r.Mine(*item) || r.Expired() {
-			continue
-		}
+	sh, nsh := r.Shard()
 
+	for _, c := range cfgs {
 		c := c
 		id := c.id()
 		build := func() vsched.Scenario { return c11sBuild(c) }
@@ -966,7 +964,13 @@ func c11PartS(r *vlib.Run, item *int) {
 			continue
 		}
 
-		res := vsched.Explore(vsched.Config{Name: id, Bound: c.bound, Build: build, Expired: r.Expired, MaxFound: 3, Horizon: 5000})
+		if r.Expired() {
+			continue
+		}
+
+		// every shard explores every scenario, each a disjoint set of first-level subtrees
+		res := vsched.Explore(vsched.Config{Name: id, Bound: c.bound, Build: build, Expired: r.Expired, MaxFound: 3, Horizon: 5000,
+			Mine: func(l int) bool { return nsh <= 1 || l%nsh == sh }, Secondary: sh != 0})
 		if res.EngineError != "" {
 			panic("engine error in " + id + ": " + res.EngineError)
 		}
@@ -974,8 +978,12 @@ func c11PartS(r *vlib.Run, item *int) {
 		r.TraceN(res.Executions)
 		r.TransitionN(res.Points)
 		r.EvalN(res.Executions)
-		r.Add("s_scenarios", 1)
 		r.Add("s_executions", res.Executions)
+		r.Add("s_executions "+id, res.Executions)
+
+		if sh == 0 {
+			r.Add("s_scenarios", 1)
+		}
 
 		if res.Capped != "" {
 			r.Cap(res.Capped + " in " + id)
@@ -1002,7 +1010,9 @@ func c11PartS(r *vlib.Run, item *int) {
 			r.Violation(id+"#"+vsched.ChoicesString(f.Choices), f.Fail.Sig, f.Fail.Detail+fmt.Sprintf(" (preemptions=%d)", f.Preempt), nil)
 		}
 
-		r.Sample(map[string]any{"scenario": id, "executions": res.Executions, "distinct_outcomes": len(res.Outcomes)})
+		if sh == 0 {
+			r.Sample(map[string]any{"scenario": id, "executions_of_shard_0": res.Executions, "distinct_outcomes_of_shard_0": len(res.Outcomes)})
+		}
 	}
 }
 
@@ -1022,7 +1032,7 @@ func TestVerifC11(t *testing.T) {
 	var item int
 
 	if !rp || strings.HasPrefix(rid, "s/") {
-		c11PartS(r, &item)
+		c11PartS(r)
 	}
 
 	for _, fl := range []string{"real", "stub"} {
